@@ -81,7 +81,8 @@ type shape struct {
 	nslots   int
 	revs     []revSpec
 	excl     []exclSpec
-	objForms [][]form // form assignments used by the "objects" slice (first = all canonical)
+	objForms [][]form      // form assignments used by the "objects" slice (first = all canonical)
+	attrVars []attrVariant // sizes/layouts of the .gitattributes files explored by the "attrsize" slice (nil: none)
 	note     string
 }
 
@@ -136,13 +137,65 @@ func (e ent) formIn(assign []form) form {
 	return e.fixed
 }
 
-func (e ent) blob(assign []form) []byte {
+// attrVariant pads the .gitattributes files of a shape: the size of an attributes blob is an input
+// dimension of its own (a blob of >= 1024 bytes is "too large to be a pointer", yet must still be read
+// as attributes).  Size 0 = the short file as written in the shape table.  The tracking lines stay the
+// same and are placed first (padding after) or last (padding before); padding = comment lines and
+// patterns for extensions that no file of the shape has.  Tracked-ness is therefore unchanged, which the
+// base builder re-checks with `git check-attr` for every variant.
+type attrVariant struct {
+	name       string
+	rootSize   int
+	rootLast   bool
+	nestedSize int
+	nestedLast bool
+}
+
+var attrShort = attrVariant{name: "short"}
+
+func padAttr(tracking string, size int, last bool) string {
+	if size == 0 {
+		return tracking
+	}
+	if size < len(tracking)+2 {
+		panic("padAttr: size too small")
+	}
+	var pad strings.Builder
+	for i := 0; ; i++ {
+		line := fmt.Sprintf("*.pad%03d"+strings.TrimSuffix(attrLine, "\n")+"\n", i)
+		if i%3 == 0 {
+			line = fmt.Sprintf("# padding line %03d: nothing below matches a file of this repository\n", i)
+		}
+		if len(tracking)+pad.Len()+len(line) > size-2 {
+			break
+		}
+		pad.WriteString(line)
+	}
+	r := size - len(tracking) - pad.Len()
+	filler := "#" + strings.Repeat("x", r-2) + "\n"
+	out := tracking + pad.String() + filler
+	if last {
+		out = pad.String() + filler + tracking
+	}
+	if len(out) != size {
+		panic("padAttr: size arithmetic")
+	}
+	return out
+}
+
+func (e ent) blob(assign []form, av attrVariant) []byte {
 	switch e.kind {
 	case kLFS:
 		return pointerBytes(e.content, e.formIn(assign))
-	default:
-		return []byte(e.text)
+	case kText:
+		if e.path == ".gitattributes" {
+			return []byte(padAttr(e.text, av.rootSize, av.rootLast))
+		}
+		if strings.HasSuffix(e.path, "/.gitattributes") {
+			return []byte(padAttr(e.text, av.nestedSize, av.nestedLast))
+		}
 	}
+	return []byte(e.text)
 }
 
 func (e ent) mode() string {
@@ -278,6 +331,13 @@ func shapes() []shape {
 		revs:     two(),
 		excl:     []exclSpec{{"", nil}, {"/sub", set("sub/x.dat")}},
 		objForms: [][]form{allCanon(3), {fAlias, fCRLF, fRaw}},
+		attrVars: []attrVariant{
+			{name: "root1023", rootSize: 1023}, {name: "root1024", rootSize: 1024}, {name: "root1025", rootSize: 1025}, {name: "root4000", rootSize: 4000},
+			{name: "root1024last", rootSize: 1024, rootLast: true}, {name: "root4000last", rootSize: 4000, rootLast: true},
+			{name: "nested1023", nestedSize: 1023}, {name: "nested1024", nestedSize: 1024}, {name: "nested1025", nestedSize: 1025}, {name: "nested4000", nestedSize: 4000},
+			{name: "nested1024last", nestedSize: 1024, nestedLast: true}, {name: "nested4000last", nestedSize: 4000, nestedLast: true},
+			{name: "both4000", rootSize: 4000, nestedSize: 4000, nestedLast: true},
+		},
 	})
 
 	// S5: three commits with a deletion; more revision arguments.
@@ -339,8 +399,11 @@ func formKey(a []form) string {
 	return strings.Join(s, ",")
 }
 
-func (bc *baseCache) get(sh *shape, assign []form) *baseInfo {
+func (bc *baseCache) get(sh *shape, assign []form, av attrVariant) *baseInfo {
 	key := sh.name + "-" + strings.ReplaceAll(formKey(assign), ",", "_")
+	if av.name != "short" {
+		key += "-" + av.name
+	}
 	bc.mu.Lock()
 	e := bc.m[key]
 	if e == nil {
@@ -356,7 +419,7 @@ func (bc *baseCache) get(sh *shape, assign []form) *baseInfo {
 			}
 			e.info = info
 		}()
-		buildBase(bc.world, sh, assign, info)
+		buildBase(bc.world, sh, assign, av, info)
 	})
 	return e.info
 }
@@ -380,7 +443,7 @@ func fiPath(p string) string {
 // buildBase writes the history with one `git fast-import` stream (deterministic ids), loads the index
 // state, checks the files out (pointer text, as after GIT_LFS_SKIP_SMUDGE), fills the local LFS store
 // and self-checks the result against the shape table.
-func buildBase(w *gitx.World, sh *shape, assign []form, info *baseInfo) {
+func buildBase(w *gitx.World, sh *shape, assign []form, av attrVariant, info *baseInfo) {
 	initContents()
 	dir := info.dir
 	os.RemoveAll(dir)
@@ -398,7 +461,7 @@ func buildBase(w *gitx.World, sh *shape, assign []form, info *baseInfo) {
 		s.WriteString("deleteall\n")
 		for _, e := range t {
 			fmt.Fprintf(&s, "M %s inline %s\n", e.mode(), fiPath(e.path))
-			fiData(&s, e.blob(assign))
+			fiData(&s, e.blob(assign, av))
 		}
 	}
 	for i, t := range sh.commits {
@@ -438,7 +501,7 @@ func buildBase(w *gitx.World, sh *shape, assign []form, info *baseInfo) {
 	os.MkdirAll(filepath.Join(lfsdir, "tmp"), 0755)
 	// ---- self-check of the construction (tool error when it fails, never a violation)
 	for i, t := range sh.commits {
-		checkTree(w, dir, info.commits[i], t, assign, fmt.Sprintf("commit %d", i))
+		checkTree(w, dir, info.commits[i], t, assign, av, fmt.Sprintf("commit %d", i))
 	}
 	// index content
 	it := sh.index
@@ -456,7 +519,7 @@ func buildBase(w *gitx.World, sh *shape, assign []form, info *baseInfo) {
 		got[rec[tab+1:]] = f[0] + " " + f[1]
 	}
 	for _, e := range it {
-		want := e.mode() + " " + gitBlobSha(e.blob(assign))
+		want := e.mode() + " " + gitBlobSha(e.blob(assign, av))
 		if got[e.path] != want {
 			panic(fmt.Sprintf("base %s: index entry %q is %q, want %q", filepath.Base(dir), e.path, got[e.path], want))
 		}
@@ -491,7 +554,7 @@ func buildBase(w *gitx.World, sh *shape, assign []form, info *baseInfo) {
 	}
 }
 
-func checkTree(w *gitx.World, dir, commit string, t tree, assign []form, what string) {
+func checkTree(w *gitx.World, dir, commit string, t tree, assign []form, av attrVariant, what string) {
 	r := w.Git(dir, "ls-tree", "-r", "-z", commit)
 	if !r.OK() {
 		panic("ls-tree failed: " + r.String())
@@ -506,7 +569,7 @@ func checkTree(w *gitx.World, dir, commit string, t tree, assign []form, what st
 		got[rec[tab+1:]] = f[0] + " " + f[2]
 	}
 	for _, e := range t {
-		want := e.mode() + " " + gitBlobSha(e.blob(assign))
+		want := e.mode() + " " + gitBlobSha(e.blob(assign, av))
 		if got[e.path] != want {
 			panic(fmt.Sprintf("base %s: %s entry %q is %q, want %q", filepath.Base(dir), what, e.path, got[e.path], want))
 		}
@@ -636,7 +699,7 @@ func expect(sh *shape, assign []form, info *baseInfo, rv revSpec, ex exclSpec, d
 						x.rawWhy[e.path] = why
 					}
 				} else if f.nonCanonical() {
-					sha := gitBlobSha(e.blob(assign))
+					sha := gitBlobSha(e.blob(assign, attrShort))
 					if soft {
 						x.ncMay[sha] = contentOid[e.content]
 					} else {
